@@ -172,6 +172,9 @@ type gMethod struct {
 	tolerantPaths []*gPath
 	dropped       int // paths cut by the unrolling bound
 	issues        []string
+	// passThrough: success paths that return a sub-parse result (not the node the method builds) although the path
+	// consumed tokens that are not part of that child: those tokens are in the source and not in the tree (R3.6)
+	passThrough []string
 }
 
 type gx struct {
@@ -267,6 +270,17 @@ func (x *gx) finish(s *gState) {
 		return
 	}
 	if s.ret[0].kind != vNode {
+		if s.ret[0].kind == vChild {
+			var lost []*gEvt
+			for i, e := range s.events {
+				if e.kind == gTok && i != s.ret[0].idx {
+					lost = append(lost, e)
+				}
+			}
+			if len(lost) > 0 {
+				x.gm.passThrough = append(x.gm.passThrough, renderPath(x.t.tc, s.events))
+			}
+		}
 		x.gm.failures++
 		return
 	}
